@@ -1,2 +1,26 @@
-(* C14Proofs.v — lemmas about the sync model used by props/C14.v *)
-From SV Require Import Base Json Canon Sync SyncObs CorrC13 CorrC14 C13Proofs.
+(* C14Proofs.v — lemmas for props/C14.v (proofs about the model: SyncProofs, SyncDocProofs, SyncIdemProofs). *)
+From SV Require Export C13Proofs.
+
+Lemma path_str_eq : forall p, path_str p = path_str' p.
+Proof. reflexivity. Qed.
+
+(* the file clause of the oracle (CorrC14.conflict_ok) holds for the walk of the model: after a successful
+   real run a conflicting file holds the content the strategy chose *)
+Lemma model_holds_C14 : forall frepr cf k p fuel o deep sdir ddir d' s c1 m1 c2 m2,
+  k <> [] ->
+  wf_node (Dir sdir) = true -> o_dry_run o = false -> o_strategy o = Some s ->
+  sync_ws frepr cf fuel o deep sdir ddir [] = (d', None) ->
+  file_at (k :: p) sdir = Some (c1, m1) -> file_at (k :: p) ddir = Some (c2, m2) ->
+  (o_recursive o = true \/ length (k :: p) = 1%nat) ->
+  forallb (fun n => negb (ignored cf n)) (k :: p) = true -> excluded cf o (last (k :: p) []) = false ->
+  file_same frepr deep c1 m1 c2 m2 = false ->
+  is_content frepr (if verdict s (path_str (k :: p)) m1 m2 then c1 else c2) (file_at (k :: p) d') = true.
+Proof.
+  intros frepr cf k p fuel o deep sdir ddir d' s c1 m1 c2 m2 Hk Hwf Hdry Hs Hrun Hfs Hfd Hr Hi Hex Hdf.
+  unfold file_at in *.
+  destruct (lookup_path (k :: p) (Dir sdir)) as [[c1' m1'|?]|] eqn:Es; try discriminate. inversion Hfs; subst c1' m1'.
+  destruct (lookup_path (k :: p) (Dir ddir)) as [[c2' m2'|?]|] eqn:Ed; try discriminate. inversion Hfd; subst c2' m2'.
+  rewrite (ws_overwrite_iff frepr cf (k :: p) fuel o deep sdir ddir [] d' s c1 m1 c2 m2 Hwf Hdry Hs Hrun Es Ed Hr Hi Hex Hdf).
+  rewrite path_str_eq, <- (rel_path_str k p Hk).
+  destruct (verdict s (rel [] (k :: p)) m1 m2); unfold is_content; apply content_eqb_refl.
+Qed.
